@@ -175,6 +175,7 @@ func runC18(c *core.Ctx) {
 			var est, capGot time.Time
 			var offGot *time.Duration
 			var err error
+			rereadDiffers := false
 			if c.Guard("rtp.AbsSendTimeExtension.Estimate", func() {
 				if err = rp.Unmarshal(img); err != nil {
 					return
@@ -190,11 +191,24 @@ func runC18(c *core.Ctx) {
 				}
 				capGot = ct.CaptureTime()
 				offGot = ct.EstimatedCaptureClockOffsetDuration()
+				// reading is not supposed to change what is read: a second read, and the wire form afterwards
+				again := ct.EstimatedCaptureClockOffsetDuration()
+				after, _ := ct.Marshal()
+				if (again == nil) != (offGot == nil) || (again != nil && *again != *offGot) || ct.CaptureTime() != capGot {
+					rereadDiffers = true
+				}
+				if !bytesEq(after, rp.GetExtension(2)) && len(rp.GetExtension(2)) == len(after) {
+					rereadDiffers = true
+				}
 			}) {
 				return
 			}
 			if err != nil {
 				c.Violate("wire", "C18/wire/decode-error", "the receiver could not decode the stamped packet: %v", err)
+				return
+			}
+			if rereadDiffers {
+				c.Violate("offset", "C18/offset/changes-when-read-again", "reading the capture time / clock offset a second time (or marshalling after reading) gives a different value (offset %d ns)", int64(off))
 				return
 			}
 			crossed := d >= toBoundary
@@ -266,4 +280,16 @@ func runC18(c *core.Ctx) {
 	loop.After(0, func() { send(0) })
 	loop.Run()
 	_ = fmt.Sprint
+}
+
+func bytesEq(a, b []byte) bool {
+	if len(a) != len(b) {
+		return false
+	}
+	for i := range a {
+		if a[i] != b[i] {
+			return false
+		}
+	}
+	return true
 }
